@@ -73,6 +73,7 @@ type Frame struct {
 	oldHeaps map[string]string
 	oldAlloc string
 	variant  map[int][]string // loop ordinal -> measure terms at loop head
+	loopSnap map[int]*loopSnapshot // state at the entry of a loop (for atloop(k, e))
 	entryMeasure []string
 	top      bool
 	skipPhis bool
@@ -94,7 +95,19 @@ func (f *Frame) clone() *Frame {
 	for k, v := range f.variant {
 		n.variant[k] = v
 	}
+	if f.loopSnap != nil {
+		n.loopSnap = make(map[int]*loopSnapshot, len(f.loopSnap))
+		for k, v := range f.loopSnap {
+			n.loopSnap[k] = v
+		}
+	}
 	return &n
+}
+
+type loopSnapshot struct {
+	heaps map[string]string
+	vars  map[string]Val
+	objs  map[int]*Obj
 }
 
 type Check struct {
@@ -109,6 +122,7 @@ type State struct {
 	objs    map[int]*Obj
 	heaps   map[string]string // heap name -> current version term
 	heapSort map[string]string
+	heapAt  map[string]string // heap name -> allocation counter when the current version was created (every reference stored in it is below)
 	alloc   string
 	sb      *strings.Builder
 	checks  []Check
@@ -240,6 +254,10 @@ func (st *State) heap(name, valSort string) string {
 	st.emit("(declare-const %s (Array Int %s))", t, valSort)
 	st.heaps[name] = t
 	st.heapSort[name] = valSort
+	if st.heapAt == nil {
+		st.heapAt = map[string]string{}
+	}
+	st.heapAt[name] = "alloc@0"
 	return t
 }
 
@@ -252,6 +270,10 @@ func (st *State) setHeap(name, valSort, newTerm string) {
 		st.emit("(assert (= %s %s))", t, newTerm)
 	}
 	st.heaps[name] = t
+	if st.heapAt == nil {
+		st.heapAt = map[string]string{}
+	}
+	st.heapAt[name] = st.alloc
 }
 
 func (st *State) heapNames() []string {
